@@ -100,6 +100,14 @@ def _make_items(vals, ids, fmt):
             elif pick == 3 and mx < 2 ** 8:
                 dt = np.uint8
         return np.array(vals, dtype=dt), None, lambda x: _int(x)
+    if fmt in ("list_np", "dict_np"):
+        # the values are numpy integer SCALARS (what `list(array)` or a dict built from array elements gives), not Python ints;
+        # int64 only, and only where no int64 arithmetic on them can wrap (else plain ints)
+        ok = all(isinstance(v, int) and abs(v) < 2 ** 53 for v in vals) and sum(abs(v) for v in vals) < 2 ** 61
+        vs = [np.int64(v) for v in vals] if ok else list(vals)
+        if fmt == "list_np":
+            return vs, None, lambda x: _int(x)
+        return {name_str(i): v for i, v in zip(ids, vs)}, None, lambda x: int(x[1:])
     if fmt == "dict_str":
         d = {name_str(i): v for i, v in zip(ids, vals)}
         return d, None, lambda x: int(x[1:])
@@ -132,6 +140,10 @@ def _make_items(vals, ids, fmt):
     if fmt == "names_valueof":
         d = _register("valueof-dict", {name_str(i): v for i, v in zip(ids, vals)})
         return [name_str(i) for i in ids], (lambda x, d=d: d[x]), lambda x: int(x[1:])
+    if fmt == "records_valueof":
+        # UNHASHABLE item objects: [name, value] records (lists) with a value function - some algorithms refuse them (they count items
+        # with a Counter); used by the history port only, where a refused call must still leave the caller's list alone
+        return [[name_str(i), v] for i, v in zip(ids, vals)], (lambda r: r[1]), lambda r: int(r[0][1:])
     if fmt == "scaled":   # exactly representable fractions: values / 2^j, handled by caller
         raise ValueError("scaled handled by caller")
     raise ValueError(fmt)
@@ -494,7 +506,12 @@ def p_objective_value(a):
 
 def p_objective_history(a):
     """ONE objective object evaluated on a sequence of sum vectors (of varying lengths): an objective must not remember anything"""
-    o = objective(a["o"], a.get("ok", 0))
+    if "weights" in a:
+        # the weighted objective, its weight vector given as a list / tuple / numpy array (exactly representable fractions w / wscale)
+        sc = a.get("wscale", 1)
+        o = OBJ.MaximizeSmallestWeightedSum(seq_of([w / sc for w in a["weights"]] if sc != 1 else list(a["weights"]), a.get("wkind", "list")))
+    else:
+        o = objective(a["o"], a.get("ok", 0))
     out = []
     buf = None      # with "inplace": ONE mutable vector object (list or array), updated in place between the evaluations
     for sums, srt, kind in a["seq"]:
@@ -507,7 +524,8 @@ def p_objective_history(a):
                 vec = buf
             else:
                 vec = seq_of(sums, kind)
-            out.append(_int(o.value_to_minimize(vec, are_sums_in_ascending_order=bool(srt))))
+            v = o.value_to_minimize(vec, are_sums_in_ascending_order=bool(srt))
+            out.append(float(v).hex() if "weights" in a else _int(v))
         except Exception as e:      # noqa
             out.append("exc:" + type(e).__name__)
     return {"values": out}
@@ -689,9 +707,22 @@ def p_binner_ops(a):
     ops = a["ops"]
     # the item objects handed to the managers: plain integers, or (with "names") equal-length tuples / strings standing for them
     style = a.get("names", "int")
-    enc = {"int": (lambda i: i), "tuple": (lambda i: (i, 0)), "str": (lambda i: name_str(i))}[style]
+    class _Job:
+        # an item object with identity equality (the default for user classes): a copy of it is a DIFFERENT item
+        __slots__ = ("tag",)
+        def __init__(self, tag):
+            self.tag = tag
+    _objs, _ids = {}, {}
+    def _obj(i):
+        if i not in _objs:
+            _objs[i] = _Job(i)
+            _ids[id(_objs[i])] = i
+        return _objs[i]
+    enc = {"int": (lambda i: i), "tuple": (lambda i: (i, 0)), "str": (lambda i: name_str(i)), "obj": _obj}[style]
     def dec(x):
         # the recorded item must be the very kind of object that was handed over
+        if style == "obj":
+            return _ids[id(x)] if id(x) in _ids and _objs[_ids[id(x)]] is x else "corrupt:" + type(x).__name__ + (":copy-of-%r" % getattr(x, "tag", None))
         if style == "tuple":
             return int(x[0]) if isinstance(x, tuple) and len(x) == 2 and x[1] == 0 else "corrupt:" + repr(x)
         if style == "str":
